@@ -1,9 +1,111 @@
-"""Extended-real arithmetic: IEEE specials (nan, +inf, -inf) over exact reals, no rounding (DESIGN 2.2)."""
+"""Extended-real arithmetic: IEEE specials (nan, +inf, -inf) over exact reals, no rounding (DESIGN 2.2).
+
+An extended real is one z3 term of the datatype XR = mk(tag, val); tag 0 finite, 1 nan, 2 +inf, 3 -inf.
+Well-formed values have 0 <= tag <= 3 and val == 0 unless finite, so value identity ("the same float", nan
+included) is plain term equality.  The operations are z3 *defined functions* (define-fun-rec without recursion):
+terms stay small, code and spec that apply the same operation to the same operands are congruent without
+unfolding, and the solver unfolds a definition only where a proof needs it.
+"""
 import ast
 import z3
-from .values import X, Z, INT, REAL, BOOL, FIN, NAN, PINF, NINF
+from .values import X, Z, INT, REAL, BOOL, FIN, NAN, PINF, NINF, XRS
 
 I = z3.IntVal
+R0 = z3.RealVal(0)
+mk = XRS.mk
+tag = XRS.tag
+val = XRS.val
+
+
+def _def(name, nargs, ret, body, sorts=None):
+    sorts = sorts or [XRS] * nargs
+    f = z3.RecFunction(name, *sorts, ret)
+    vs = [z3.Const('%s_a%d' % (name, k), s) for k, s in enumerate(sorts)]
+    z3.RecAddDefinition(f, vs, body(*vs))
+    return f
+
+
+def fin(v):
+    return mk(I(FIN), v)
+
+
+NANV = mk(I(NAN), R0)
+PINFV = mk(I(PINF), R0)
+NINFV = mk(I(NINF), R0)
+
+
+def wf(t):
+    return z3.And(tag(t) >= 0, tag(t) <= 3, z3.Or(tag(t) == FIN, val(t) == 0))
+
+
+def _sign(a):
+    return z3.If(tag(a) == PINF, 1, z3.If(tag(a) == NINF, -1, z3.If(val(a) > 0, 1, z3.If(val(a) < 0, -1, 0))))
+
+
+def _mkn(t, v):
+    """normalised constructor: val forced to 0 unless finite"""
+    return mk(t, z3.If(t == FIN, v, R0))
+
+
+F_NEG = _def('xneg', 1, XRS, lambda a: _mkn(z3.If(tag(a) == PINF, I(NINF), z3.If(tag(a) == NINF, I(PINF), tag(a))), -val(a)))
+
+
+def _add_body(a, b):
+    nan = z3.Or(tag(a) == NAN, tag(b) == NAN, z3.And(tag(a) == PINF, tag(b) == NINF),
+                z3.And(tag(a) == NINF, tag(b) == PINF))
+    t = z3.If(nan, I(NAN), z3.If(z3.Or(tag(a) == PINF, tag(b) == PINF), I(PINF),
+                                 z3.If(z3.Or(tag(a) == NINF, tag(b) == NINF), I(NINF), I(FIN))))
+    return _mkn(t, val(a) + val(b))
+
+
+F_ADD = _def('xadd', 2, XRS, _add_body)
+
+
+def _mul_body(a, b):
+    sa, sb = _sign(a), _sign(b)
+    anyinf = z3.Or(tag(a) == PINF, tag(a) == NINF, tag(b) == PINF, tag(b) == NINF)
+    nan = z3.Or(tag(a) == NAN, tag(b) == NAN, z3.And(anyinf, z3.Or(sa == 0, sb == 0)))
+    t = z3.If(nan, I(NAN), z3.If(anyinf, z3.If(sa * sb > 0, I(PINF), I(NINF)), I(FIN)))
+    return _mkn(t, val(a) * val(b))
+
+
+F_MUL = _def('xmul', 2, XRS, _mul_body)
+
+
+def _div_body(a, b):
+    """numpy float division: x/0 = +-inf, 0/0 = nan, fin/inf = 0, inf/inf = nan (no signed zeros)"""
+    sa, sb = _sign(a), _sign(b)
+    a_inf = z3.Or(tag(a) == PINF, tag(a) == NINF)
+    b_inf = z3.Or(tag(b) == PINF, tag(b) == NINF)
+    b_zero = z3.And(tag(b) == FIN, val(b) == 0)
+    nan = z3.Or(tag(a) == NAN, tag(b) == NAN, z3.And(a_inf, b_inf), z3.And(b_zero, sa == 0))
+    inf_res = z3.Or(z3.And(a_inf, z3.Not(b_inf)), z3.And(b_zero, sa != 0))
+    res_sign = z3.If(b_zero, sa, sa * sb)
+    t = z3.If(nan, I(NAN), z3.If(inf_res, z3.If(res_sign > 0, I(PINF), I(NINF)), I(FIN)))
+    v = z3.If(z3.And(tag(a) == FIN, tag(b) == FIN, val(b) != 0), val(a) / val(b), R0)
+    return _mkn(t, v)
+
+
+F_DIV = _def('xdiv', 2, XRS, _div_body)
+
+
+def _lt_body(a, b):
+    ok = z3.And(tag(a) != NAN, tag(b) != NAN)
+    return z3.And(ok, z3.Or(z3.And(tag(a) == NINF, tag(b) != NINF),
+                            z3.And(tag(b) == PINF, tag(a) != PINF),
+                            z3.And(tag(a) == FIN, tag(b) == FIN, val(a) < val(b))))
+
+
+F_LT = _def('xlt', 2, z3.BoolSort(), _lt_body)
+F_EQ = _def('xeq', 2, z3.BoolSort(), lambda a, b: z3.And(tag(a) != NAN, tag(b) != NAN, tag(a) == tag(b),
+                                                         z3.Or(tag(a) != FIN, val(a) == val(b))))
+F_MIN = _def('xmin', 2, XRS, lambda a, b: z3.If(z3.Or(tag(a) == NAN, tag(b) == NAN), NANV, z3.If(F_LT(b, a), b, a)))
+F_MAX = _def('xmax', 2, XRS, lambda a, b: z3.If(z3.Or(tag(a) == NAN, tag(b) == NAN), NANV, z3.If(F_LT(a, b), b, a)))
+F_NANMIN = _def('xnanmin', 2, XRS, lambda a, b: z3.If(tag(a) == NAN, b, z3.If(tag(b) == NAN, a, z3.If(F_LT(b, a), b, a))))
+F_RATIO = _def('xratio', 2, XRS, lambda a, b: F_DIV(F_MIN(a, b), F_MAX(a, b)))
+F_CLAMP0 = _def('xclamp0', 1, XRS, lambda a: z3.If(F_LT(a, fin(R0)), fin(R0), a))
+
+ALL_DEFS = [F_NEG, F_ADD, F_MUL, F_DIV, F_LT, F_EQ, F_MIN, F_MAX, F_NANMIN, F_RATIO, F_CLAMP0]
 
 
 def to_x(v):
@@ -11,67 +113,40 @@ def to_x(v):
         return v
     if isinstance(v, Z):
         if v.ty == REAL:
-            return X(I(FIN), v.t)
+            return X(fin(v.t))
         if v.ty == INT:
-            return X(I(FIN), z3.ToReal(v.t))
+            return X(fin(z3.ToReal(v.t)))
         if v.ty == BOOL:
-            return X(I(FIN), z3.If(v.t, z3.RealVal(1), z3.RealVal(0)))
+            return X(fin(z3.If(v.t, z3.RealVal(1), R0)))
     raise TypeError('to_x(%r)' % (v,))
 
 
 def isnan(a):
-    return a.tag == NAN
+    return tag(a.t) == NAN
 
 
 def isfin(a):
-    return a.tag == FIN
-
-
-def sign(a):
-    """-1, 0, 1 as z3 Int for non-nan a"""
-    return z3.If(a.tag == PINF, 1, z3.If(a.tag == NINF, -1, z3.If(a.val > 0, 1, z3.If(a.val < 0, -1, 0))))
+    return tag(a.t) == FIN
 
 
 def neg(a):
-    return X(z3.If(a.tag == PINF, I(NINF), z3.If(a.tag == NINF, I(PINF), a.tag)), -a.val)
-
-
-def _mk(tag, val):
-    return X(tag, val)
+    return X(F_NEG(a.t))
 
 
 def add(a, b):
-    nan = z3.Or(isnan(a), isnan(b), z3.And(a.tag == PINF, b.tag == NINF), z3.And(a.tag == NINF, b.tag == PINF))
-    tag = z3.If(nan, I(NAN), z3.If(z3.Or(a.tag == PINF, b.tag == PINF), I(PINF),
-                                   z3.If(z3.Or(a.tag == NINF, b.tag == NINF), I(NINF), I(FIN))))
-    return X(tag, a.val + b.val)
+    return X(F_ADD(a.t, b.t))
 
 
 def sub(a, b):
-    return add(a, neg(b))
+    return X(F_ADD(a.t, F_NEG(b.t)))
 
 
 def mul(a, b):
-    sa, sb = sign(a), sign(b)
-    anyinf = z3.Or(a.tag == PINF, a.tag == NINF, b.tag == PINF, b.tag == NINF)
-    nan = z3.Or(isnan(a), isnan(b), z3.And(anyinf, z3.Or(sa == 0, sb == 0)))
-    tag = z3.If(nan, I(NAN), z3.If(anyinf, z3.If(sa * sb > 0, I(PINF), I(NINF)), I(FIN)))
-    return X(tag, a.val * b.val)
+    return X(F_MUL(a.t, b.t))
 
 
 def div(a, b):
-    """numpy float division: x/0 = +-inf, 0/0 = nan, fin/inf = 0, inf/inf = nan"""
-    sa, sb = sign(a), sign(b)
-    a_inf = z3.Or(a.tag == PINF, a.tag == NINF)
-    b_inf = z3.Or(b.tag == PINF, b.tag == NINF)
-    b_zero = z3.And(b.tag == FIN, b.val == 0)
-    nan = z3.Or(isnan(a), isnan(b), z3.And(a_inf, b_inf), z3.And(b_zero, sa == 0))
-    # numpy: x / +0.0 = sign(x) inf ; the sign of a zero denominator is taken as +0 (no signed zeros modelled)
-    inf_res = z3.Or(z3.And(a_inf, z3.Not(b_inf)), z3.And(b_zero, sa != 0))
-    res_sign = z3.If(b_zero, sa, sa * sb)
-    tag = z3.If(nan, I(NAN), z3.If(inf_res, z3.If(res_sign > 0, I(PINF), I(NINF)), I(FIN)))
-    val = z3.If(z3.And(a.tag == FIN, b.tag == FIN, b.val != 0), a.val / b.val, z3.RealVal(0))
-    return X(tag, val)
+    return X(F_DIV(a.t, b.t))
 
 
 def binop(op, a, b):
@@ -87,17 +162,11 @@ def binop(op, a, b):
 
 
 def lt(a, b):
-    """a < b, false on nan"""
-    ok = z3.And(z3.Not(isnan(a)), z3.Not(isnan(b)))
-    return z3.And(ok, z3.Or(
-        z3.And(a.tag == NINF, b.tag != NINF),
-        z3.And(b.tag == PINF, a.tag != PINF),
-        z3.And(a.tag == FIN, b.tag == FIN, a.val < b.val)))
+    return F_LT(a.t, b.t)
 
 
 def eq(a, b):
-    ok = z3.And(z3.Not(isnan(a)), z3.Not(isnan(b)))
-    return z3.And(ok, a.tag == b.tag, z3.Or(a.tag != FIN, a.val == b.val))
+    return F_EQ(a.t, b.t)
 
 
 def compare(op, a, b):
@@ -117,27 +186,33 @@ def compare(op, a, b):
 
 
 def ite(c, a, b):
-    return X(z3.If(c, a.tag, b.tag), z3.If(c, a.val, b.val))
+    return X(z3.If(c, a.t, b.t))
 
 
 def np_min2(a, b):
-    """np.min([a, b]): nan-propagating"""
-    nan = z3.Or(isnan(a), isnan(b))
-    r = ite(lt(b, a), b, a)
-    return ite(nan, X(I(NAN), z3.RealVal(0)), r)
+    return X(F_MIN(a.t, b.t))
 
 
 def np_max2(a, b):
-    nan = z3.Or(isnan(a), isnan(b))
-    r = ite(lt(a, b), b, a)
-    return ite(nan, X(I(NAN), z3.RealVal(0)), r)
+    return X(F_MAX(a.t, b.t))
 
 
 def nanmin2(a, b):
-    """np.nanmin over two values (nan only if both nan)"""
-    return ite(isnan(a), b, ite(isnan(b), a, ite(lt(b, a), b, a)))
+    return X(F_NANMIN(a.t, b.t))
+
+
+def ratio(a, b):
+    return X(F_RATIO(a.t, b.t))
+
+
+def clamp0(a):
+    return X(F_CLAMP0(a.t))
 
 
 def same(a, b):
-    """structural identity incl. nan == nan (for specs: 'is the same float')"""
-    return z3.And(a.tag == b.tag, z3.Or(a.tag != FIN, a.val == b.val))
+    """value identity incl. nan == nan: term equality of well-formed values"""
+    return a.t == b.t
+
+
+def nan():
+    return X(NANV)
